@@ -4,4 +4,4 @@ Require Import Nib.C17.AnteFacts Nib.C02.Model Nib.Gen.C02Facts.
 Definition current_cfg : cfg :=
   cfg_of_facts nonevm_chain evm_chain ext_switch guard_prevent_eth guard_authz wasm_handler sig_gas_consumer
                registered_ext_options eth_signers_from_signature verify_fee_of_total
-               (apply_nonce_reset, apply_post_nonce_call, apply_post_nonce_create) tx_price_facts.
+               (apply_pre_nonce_call, apply_pre_nonce_create) (apply_post_nonce_call, apply_post_nonce_create) tx_price_facts.
